@@ -1,4 +1,5 @@
-From GoMC Require Import Base.Dec Model.C16.
+From GoMC Require Import Base.Dec Model.C16 Model.C16_ext.
 Require Import ExtrOcamlBasic.
 Extraction "c16_model.ml" run_flat rcon_write rcon_read read_n read_stream spec_frame
-  dial_send dial_recv cmd_send resp_recv accept_login accept_cmd resp_cmd login_run run_session spec_session.
+  dial_send dial_recv cmd_send resp_recv accept_login accept_cmd resp_cmd login_run run_session spec_session
+  declared_len split_resp resp_multi recv_n incr_lockstep run_multi.
